@@ -22,6 +22,10 @@
     a block discards its bindings but keeps assignments to outer variables;
   * `return e` leaves the *function*; a call evaluates its arguments left to
     right, runs the callee in a fresh environment; recursion is allowed;
+  * a value of a user-defined `enum` type is a constructor name with the values of
+    its arguments; `match` evaluates its examinee once and runs the first arm whose
+    pattern names the value's constructor (or is `_`) and whose guard, if any, is
+    `true`; a constructor pattern binds one variable per argument, local to the arm;
   * running out of fuel is the outcome `fuel` (not a value);
     an ill-typed program is `stuck` (the generator never produces one; if it
     happens the harness reports a broken tie, not a compiler defect).
@@ -60,18 +64,35 @@ def ITy.toBits (t : ITy) (x : Int) : Nat := (x % (2 ^ t.bits : Int)).toNat
 
 inductive Ty
   | int (t : ITy) | f32 | f64 | bool | unit
+  | enum (name : String)
   deriving DecidableEq, Repr, Inhabited
 
+/-- A value. A value of a user-defined `enum` type is the name of its constructor
+    (variant) and the values of the constructor's arguments. -/
 inductive Val
   | int (t : ITy) (v : Int)
   | f32 (b : BitVec 32)
   | f64 (b : BitVec 64)
   | bool (b : Bool)
   | unit
-  deriving DecidableEq, Repr, Inhabited
+  | enum (ty : String) (variant : String) (fields : List Val)
+  deriving Repr, Inhabited
 
 def Val.ty : Val → Ty
   | .int t _ => .int t | .f32 _ => .f32 | .f64 _ => .f64 | .bool _ => .bool | .unit => .unit
+  | .enum t _ _ => .enum t
+
+/-- A `match` pattern: `_`, or a constructor name with one variable per argument
+    (the language matches on the constructor only, never on its contents). -/
+inductive Pat
+  | wild
+  | ctor (name : String) (binds : List String)
+  deriving DecidableEq, Repr, Inhabited
+
+/-- Does the pattern select a value built with constructor `variant`? -/
+def Pat.selects : Pat → String → Bool
+  | .wild, _ => true
+  | .ctor name _, variant => decide (name = variant)
 
 inductive BinOp
   | add | sub | mul | div | mod
@@ -99,6 +120,13 @@ inductive Expr
   | assign (x : String) (e : Expr)
   | cassign (op : BinOp) (x : String) (e : Expr)
   | ret (e : Option Expr)
+  /-- `Ty.Variant(args…)`: a value of a user-defined enum type -/
+  | ctor (ty : String) (variant : String) (args : List Expr)
+  /-- `match e { arm… }` -/
+  | match_ (scrut : Expr) (arms : List Arm)
+/-- `pattern [if guard] => body` -/
+inductive Arm
+  | mk (pat : Pat) (guard : Option Expr) (body : Block)
 inductive Stmt
   | let_ (x : String) (e : Expr)
   | expr (e : Expr)
@@ -109,6 +137,7 @@ end
 instance : Inhabited Expr := ⟨.lit .unit⟩
 instance : Inhabited Block := ⟨.mk [] none⟩
 instance : Inhabited Stmt := ⟨.expr default⟩
+instance : Inhabited Arm := ⟨.mk .wild none default⟩
 
 structure FnDef where
   name : String
@@ -238,6 +267,20 @@ def bindParams : List (String × Ty) → List Val → Env → R Env
     if v.ty = t then bindParams ps vs ((x, v) :: acc) else .stuck s!"argument type of {x}"
   | _, _, _ => .stuck "arity"
 
+/-- The variables of a constructor pattern bound to the constructor's arguments, in
+    order (the last one is the innermost binding). -/
+def bindFields : List String → List Val → Env → Option Env
+  | [], [], env => some env
+  | x :: xs, v :: vs, env => bindFields xs vs ((x, v) :: env)
+  | _, _, _ => none
+
+/-- The environment an arm's guard and body run in: a constructor pattern binds its
+    variables, `_` binds nothing. `none`: the number of variables is not the number of
+    arguments (ill-typed). -/
+def Pat.bind : Pat → List Val → Env → Option Env
+  | .wild, _, env => some env
+  | .ctor _ binds, fields, env => bindFields binds fields env
+
 def findFn (fns : List FnDef) (f : String) : Option FnDef := fns.find? (·.name = f)
 
 mutual
@@ -338,6 +381,42 @@ def evalExpr (fns : List FnDef) : Nat → Env → Expr → R (Env × Val)
     | .ret (some e) => do
       let (_, v) ← evalExpr fns n env e
       .ret v
+    | .ctor ty variant args => do
+      let (env, vs) ← evalArgs fns n env args
+      pure (env, .enum ty variant vs)
+    | .match_ scrut arms => do
+      -- the examinee is evaluated once, then the arms are tried in the order written
+      let (env, v) ← evalExpr fns n env scrut
+      match v with
+      | .enum _ variant fields => evalArms fns n env variant fields arms
+      | _ => .stuck "match on a value that is not of an enum type"
+
+/-- The arms of a `match` on a value built with constructor `variant` from `fields`:
+    the FIRST arm whose pattern selects the constructor and whose guard (if it has one)
+    evaluates to `true` is the one that runs, and the value of its body is the value of
+    the `match`. A guard is evaluated only when its pattern selects the value and no
+    earlier arm was taken; it sees the pattern's variables; its effects on outer
+    variables stay when it is `false`. The pattern's variables are local to the arm. -/
+def evalArms (fns : List FnDef) : Nat → Env → String → List Val → List Arm → R (Env × Val)
+  | 0, _, _, _, _ => .fuel
+  | _ + 1, _, _, _, [] => .stuck "no arm of the match applies"
+  | n + 1, env, variant, fields, .mk pat guard body :: rest =>
+    if !pat.selects variant then evalArms fns n env variant fields rest else
+    match pat.bind fields env with
+    | none => .stuck "pattern variables do not fit the constructor"
+    | some envB =>
+      match guard with
+      | none => do
+        let (env', v) ← evalBlock fns n envB body
+        pure (env'.drop (env'.length - env.length), v)
+      | some g => do
+        let (env1, gv) ← evalExpr fns n envB g
+        match gv with
+        | .bool true => do
+          let (env', v) ← evalBlock fns n env1 body
+          pure (env'.drop (env'.length - env.length), v)
+        | .bool false => evalArms fns n (env1.drop (env1.length - env.length)) variant fields rest
+        | _ => .stuck "guard on non-bool"
 
 def evalArgs (fns : List FnDef) : Nat → Env → List Expr → R (Env × List Val)
   | 0, _, _ => .fuel
